@@ -3,11 +3,16 @@
    * purity -- proved here on the value model: every read query, although it refreshes caches,
      leaves the observable content (track map, uri, modality) unchanged, keeps the invariant, and
      does not influence the answer of any later read;
-   * independence (no shared mutable state between a derived object and its source) -- a statement
-     about aliasing that a value-semantics model cannot express; NOT proved: it is decided by the
-     derive-then-mutate correspondence histories of this check (every deriving operation x cache
-     state x mutated side), see level_note. Statements only. *)
-From PV Require Import Model.AnnotationOps Proofs.AnnotationInvP Proofs.PurityP Check.C02.
+   * independence -- a statement about aliasing, proved on an abstract heap (cells = the mutable
+     containers of the implementation): if, at derivation time, no cell is owned by both the derived
+     object and its source (separation), and every mutator writes only cells its receiver owns or
+     fresh ones (footprint discipline), then for EVERY later history of mutator calls on either side
+     the other side's observable content is what it was. The two premises are facts about the code:
+     the correspondence observes them on every case (identities of all reachable dict / list / set /
+     SortedDict / SortedList / Timeline / Annotation objects after each derivation and after the
+     mutations; full snapshots of the untouched side) for every deriving operation x cache state x
+     mutated side, and also runs 1-6 sampled mutations directly. Statements only. *)
+From PV Require Import Model.AnnotationOps Proofs.AnnotationInvP Proofs.PurityP Proofs.HeapFrameP Check.C02.
 
 Section C08.
 Variable eps : Z.
@@ -27,6 +32,23 @@ Theorem C08_copy_starts_from_content_not_caches : forall a,
 Proof. exact copy_content. Qed.
 End C08.
 
+(* independence for all histories from separation + footprint discipline *)
+Theorem C08_one_mutator_call_leaves_the_other_object_alone : forall (V A : Type) (o1 o2 : obj V A) h h',
+  local V A o2 -> owned V A o2 h -> disjoint (fp V A o1 h) (fp V A o2 h) -> mut_ok V A o1 h h' ->
+  fp V A o2 h' = fp V A o2 h /\ absf V A o2 h' = absf V A o2 h /\ owned V A o2 h' /\
+  disjoint (fp V A o1 h') (fp V A o2 h').
+Proof. exact frame_step. Qed.
+Theorem C08_independence_for_every_history : forall (V A : Type) (src der : obj V A) h,
+  local V A src -> local V A der -> owned V A src h -> owned V A der h ->
+  disjoint (fp V A src h) (fp V A der h) ->
+  (forall h', HeapFrameP.run V A der h h' -> absf V A src h' = absf V A src h) /\
+  (forall h', HeapFrameP.run V A src h h' -> absf V A der h' = absf V A der h).
+Proof. exact independence. Qed.
+Theorem C08_without_separation_independence_fails :
+  mut_ok _ _ (cell_obj 0) h0 (append_to 0 7 h0) /\
+  absf _ _ (cell_obj 0) (append_to 0 7 h0) <> absf _ _ (cell_obj 0) h0.
+Proof. exact sharing_breaks_independence. Qed.
+
 Example C08_nonvacuous :
   let a := ann_of 0 (Some "u"%string) None [((0, 4), NStr "x", NStr "a"); ((2, 6), NStr "_", NStr "b")] in
   abs (reads 0 a [RLabels []; RGetTimeline [] None; RChart []]) = abs a /\
@@ -37,3 +59,6 @@ Print Assumptions C08_read_is_pure.
 Print Assumptions C08_any_sequence_of_reads_is_pure.
 Print Assumptions C08_reads_do_not_change_later_answers.
 Print Assumptions C08_copy_starts_from_content_not_caches.
+Print Assumptions C08_one_mutator_call_leaves_the_other_object_alone.
+Print Assumptions C08_independence_for_every_history.
+Print Assumptions C08_without_separation_independence_fails.
